@@ -759,6 +759,11 @@ def install_builtins(reg):
             if e.etype == "AttributeError" and len(a) > 2:
                 return a[2]
             raise
+        except Unsupported as u:
+            # getattr with a default on a contract-built object: an attribute outside the model is simply absent
+            if len(a) > 2 and "not part of the contract's object model" in str(u):
+                return a[2]
+            raise
 
     @bi("setattr")
     def _setattr(itp, a, k):
@@ -776,6 +781,10 @@ def install_builtins(reg):
             return True
         except PyRaise as e:
             if e.etype == "AttributeError":
+                return False
+            raise
+        except Unsupported as u:
+            if "not part of the contract's object model" in str(u):
                 return False
             raise
 
